@@ -420,7 +420,12 @@ func (c *Chain) RunBlock(dt int64, absentCons map[string]bool, evs []EvSpec, txs
 		if c.Cur != nil {
 			total = c.Cur.TotalVotingPower()
 		}
-		misb = append(misb, abci.Misbehavior{Type: abci.MisbehaviorType_DUPLICATE_VOTE,
+		// x/evidence handles both kinds of misbehaviour CometBFT reports the same way; alternate between them
+		kind := abci.MisbehaviorType_DUPLICATE_VOTE
+		if (e.Height+int64(e.Cons))%2 == 1 {
+			kind = abci.MisbehaviorType_LIGHT_CLIENT_ATTACK
+		}
+		misb = append(misb, abci.Misbehavior{Type: kind,
 			Validator: abci.Validator{Address: c.Keys.Pool[e.Cons].Cons.Bytes(), Power: e.Power},
 			Height:    e.Height, Time: time.Unix(genesisUnix+e.Time, 0).UTC(), TotalVotingPower: total})
 	}
